@@ -55,6 +55,9 @@ if rewrites:
             block = m.group(1)
             new_block = block
             for old, new in rewrites.items():
+                if old == '"sync"' and os.sep + os.path.join("lib", "concurrent") + os.sep in path:
+                    # atoms and futures get their own lock class (visible independently of env locks)
+                    new = 'sync "github.com/jig/lisp/zverif/vsynca"'
                 # only plain (un-aliased) imports on their own line
                 new_block = re.sub(r'(?m)^(\s*)' + re.escape(old) + r'\s*$', r'\1' + new, new_block)
             if new_block != block:
